@@ -41,19 +41,30 @@ def trace_values(out):
 
 def bounded_recheck(unit, units, outdir):
     """contract without loop contracts, capacity BCAP, unwinding; returns (verdict, log)"""
-    u = dict(unit)
-    u['sections'] = {k: v for k, v in unit['sections'].items() if not k.startswith('loop ')}
-    defines = ['CAP=%d' % BCAP, 'BOUNDED=1']
-    try:
-        b = driver.build_c(u, units, outdir, defines=['#define CAP %d' % BCAP, '#define BOUNDED 1'])
-    except (ExtractionBreak, specmod.SpecError) as e:
-        return 'undecided', 'bounded build failed: %s' % e
-    inst, err = driver.instrument(u, units, b, outdir, tag='.bounded')
-    if err:
-        return 'undecided', err
-    flags = driver.check_flags(unit) + ['--unwind', str(BCAP + 2), '--unwinding-assertions', '--trace']
-    r = driver.run_cbmc(inst['gb'], flags, [], timeout=600)
-    return r['verdict'], r['out']
+    has_ghost = any(k.startswith('ghost ') for k in unit['sections'])
+    for drop_ghost in (False, True):
+        u = dict(unit)
+        u['sections'] = {k: v for k, v in unit['sections'].items() if not k.startswith('loop ') and not (drop_ghost and k.startswith('ghost '))}
+        try:
+            b = driver.build_c(u, units, outdir, defines=['#define CAP %d' % BCAP, '#define BOUNDED 1'])
+        except ExtractionBreak as e:
+            if not drop_ghost and has_ghost and 'no matching place' in str(e):
+                continue      # loop structure changed: the ghost splices do not attach any more
+            return 'undecided', 'bounded build failed: %s' % e
+        except specmod.SpecError as e:
+            return 'undecided', 'bounded build failed: %s' % e
+        inst, err = driver.instrument(u, units, b, outdir, tag='.bounded')
+        if err:
+            return 'undecided', err
+        flags = driver.check_flags(unit) + ['--unwind', str(BCAP + 2), '--unwinding-assertions', '--trace']
+        r = driver.run_cbmc(inst['gb'], flags, [], timeout=600)
+        if drop_ghost and r['verdict'] == 'refuted':
+            # without the ghost bookkeeping, postconditions over ghost outputs are meaningless: only safety obligations count
+            bad = [k for k, v in r['results'].items() if v[0] == 'FAILURE' and 'postcondition' not in k]
+            if not bad:
+                return 'undecided', 'loop structure changed; bounded re-check without ghost bookkeeping finds no safety violation (postconditions over ghost outputs cannot be evaluated)\n' + r['out'][-3000:]
+        return r['verdict'], r['out']
+    return 'undecided', 'bounded build failed'
 
 
 def native_replay(unit, prop, values, outdir):
